@@ -1,6 +1,6 @@
 (* Properties_C16.v — obligations of property C16 (text buffers are always well-formed, printable
    and terminated). *)
-Require Import ObsRun Lemmas_WF Lemmas_TabConv.
+Require Import ObsRun Lemmas_WF Lemmas_TabConv Lemmas_Narrow Lemmas_ObsCb.
 Local Open Scope Z_scope.
 
 (* After EVERY call of EVERY call sequence, each of the four texts shown by the getters has its
@@ -27,7 +27,23 @@ Theorem C16_charset_printable : conv_printable_ok conv_u = true.
 Proof. exact conv_unicode_printable. Qed.
 Print Assumptions C16_charset_printable.
 
-(* PARTIAL: obs_C16 additionally checks the text samples handed to callbacks; that conjunct is
-   only evaluated (on the model here, on the library by the check), not proved for all runs *)
+(* THE OBSERVER, including the text samples handed to callbacks: every text a callback sees during
+   a call is one of the four buffers of the state after the call, hence well-formed in the same
+   sense; for the unicode table and for the table of the non-unicode build *)
+Theorem C16_observer : forall h s o ret, reach conv_u lut_g h s -> wf_op o ->
+  obs_C16 conv_u (o :: h) (snap_of s) (snap_of (fst (step_u s o))) (snd (step_u s o)) ret = true.
+Proof.
+  exact (obs_C16_holds conv_u lut_g (proj1 (conv_printable_spec conv_u conv_unicode_printable))
+                       (proj2 (conv_printable_spec conv_u conv_unicode_printable))).
+Qed.
+Print Assumptions C16_observer.
+Theorem C16_observer_narrow : forall h s o ret, reach conv_n lut_g h s -> wf_op o ->
+  obs_C16 conv_n (o :: h) (snap_of s) (snap_of (fst (step_n s o))) (snd (step_n s o)) ret = true.
+Proof.
+  exact (obs_C16_holds conv_n lut_g (proj1 (conv_printable_spec conv_n conv_narrow_printable))
+                       (proj2 (conv_printable_spec conv_n conv_narrow_printable))).
+Qed.
+Print Assumptions C16_observer_narrow.
+
 Example C16_scenario : check_run_u (observer_u 16) scenario = true.
 Proof. vm_compute. reflexivity. Qed.
